@@ -14,11 +14,18 @@ def run(ctx):
                 cases.append(f['case'])
     else:
         cases = heapgen.gen_cases(ctx.seed, ctx.tier, variant='v1')
+        # variant `raw`: the same interning contract through the public inherent method SimpleGarnishData::add(SimpleData) — the only way
+        # to hand the store one of its preallocated constants (unit, true, false) as a VALUE; implementation-only oracle
+        import random
+        r = random.Random(ctx.seed * 31 + 15)
+        pool = ['U', 'T', 'F', '(i 0)', '(i 1)', '(i 2)', '(c 97)', '(b 1)', '(s 1)', '(s 2)', '(cl)', '(cl 97)']
+        for n in range(1500 if ctx.tier == 'quick' else 8000):
+            cases.append(['CACHE', f'w{n}', 'raw'] + [r.choice(pool) for _ in range(r.randint(2, 8))])
     ctx.evaluations = len(cases)
     if not h_ok:
         return
     impl = vlib.run_impl(cases, 'c15', per_case_s=5.0)
-    model = vlib.run_model(cases, 'c15') if drv_ok else {}
+    model = vlib.run_model([c for c in cases if not (c[0] == 'CACHE' and c[2] == 'raw')], 'c15') if drv_ok else {}
     dis = 0
     streams = {}
     for c in cases:
